@@ -5,6 +5,7 @@ import (
 	"os"
 	"strconv"
 	"strings"
+	"syscall"
 	"unicode/utf8"
 
 	"github.com/AsaiYusuke/jsonpath"
@@ -193,6 +194,18 @@ func (j *stringsJob) soupLen() int {
 	return 4
 }
 
+// slowParseCPUSeconds: CPU time (not wall time: immune to load and suspension) above which a
+// single Parse of a path of at most 256 characters is reported as "not bounded".
+const slowParseCPUSeconds = 5.0
+
+func cpuSeconds() float64 {
+	var ru syscall.Rusage
+	if syscall.Getrusage(syscall.RUSAGE_SELF, &ru) != nil {
+		return 0
+	}
+	return float64(ru.Utime.Sec+ru.Stime.Sec) + float64(ru.Utime.Usec+ru.Stime.Usec)/1e6
+}
+
 // judgeC02 checks the totality invariant of one Parse outcome.
 func judgeC02(pr impl.ParseResult) (ok bool, kind, detail string) {
 	switch {
@@ -270,6 +283,10 @@ func (j *stringsJob) one(c *run.Ctx, s string, family string) {
 		j.probe(s, family)
 		return
 	}
+	if c.Expired() {
+		c.Cut = true // tier deadline: the rest of this unit is not explored (reported as not exhaustive)
+		return
+	}
 	c.Tick()
 	for ci := 0; ci < 2; ci++ {
 		var cfg *jsonpath.Config
@@ -278,8 +295,22 @@ func (j *stringsJob) one(c *run.Ctx, s string, family string) {
 		if ci == 1 {
 			cfg, cfgName, mcfg = &j.env.CfgAcc, "funcs+accessor", j.mcfg
 		}
+		cpu0 := cpuSeconds()
 		pr := impl.Parse(s, cfg)
+		cpu := cpuSeconds() - cpu0
 		c.Evals++
+		if cpu > slowParseCPUSeconds && !j.withModel {
+			c.Violate(run.Violation{
+				Sig:    "unbounded-time:" + tokenShape(s),
+				Detail: fmt.Sprintf("Parse(%q) (%d characters) with config %s used %.1f s of CPU time (the slowest 256-character path on the pinned tree needs about 0.01 s)", s, len(s), cfgName, cpu),
+				Size:   len(s),
+				Case: func() map[string]interface{} {
+					cs := strCase(s, cfgName, family)
+					cs["slow"] = true
+					return cs
+				}(),
+			})
+		}
 		key := pr.ErrType
 		if pr.F != nil {
 			key = "accepted"
@@ -482,7 +513,12 @@ func registerStrings(id string, withModel bool, level, rule string, assumptions 
 					mcfg.Aggregate[k] = true
 				}
 			}
+			cpu0 := cpuSeconds()
 			pr := impl.Parse(s, cfg)
+			if cs["slow"] == true {
+				cpu := cpuSeconds() - cpu0
+				return cpu > slowParseCPUSeconds, fmt.Sprintf("Parse used %.1f s of CPU time", cpu)
+			}
 			if !withModel {
 				ok, _, detail := judgeC02(pr)
 				if ok && pr.F != nil {
@@ -513,6 +549,7 @@ func init() {
 	registerStrings("C02", false, "exploration",
 		"every (string, config) is one execution of Parse in an isolated worker; distinct by construction of the enumerators; non-trivial = the outcome is anything but the catch-all 'unrecognized input' rejection (an action ran)",
 		[]string{
+			"bounded time: a single Parse that uses more than 5 s of CPU time (500x the slowest 256-character path on the pinned tree) is a violation, and one that has not returned after 60 s of wall time is killed and reported",
 			"invariant: the worker survives, Parse returns, exactly one of (function, nil) or (nil, one of the four documented error types); an accepted function is additionally called on three documents and must not panic",
 			"strings outside the enumerated sets (longer than 5 tokens and not within one token edit of a sentence) are not covered; arbitrary Unicode is represented by a 2-byte, a 4-byte character and an invalid byte",
 		})
